@@ -38,6 +38,7 @@ type Contract struct {
 	Pkg      string // package path suffix: "http2" or "http2utils"
 	Func     string // e.g. "readInt", "(*HPACK).peek", "(*serverConn).handleStreams$1"
 	Props    []string
+	Bounded  []string            // clauses that are proved only up to a stated bound (reported in the evidence, never counted as proved in full)
 	Routes   map[string][]string // clause label -> the properties its obligations count for (default: all of Props)
 	Mode     string
 	Opts     map[string]string
@@ -239,6 +240,9 @@ func ParseContracts(files map[string]string) (*ContractSet, error) {
 			switch word {
 			case "props":
 				cur.Props = strings.Fields(rest)
+			case "bounded":
+				// bounded <label>: <what the bound is>
+				cur.Bounded = append(cur.Bounded, strings.TrimSpace(rest))
 			case "route":
 				// route <label> <property>...: obligations of the clause with this label count only for these properties
 				f := strings.Fields(rest)
